@@ -81,6 +81,44 @@ example : wt [true, false] (.mul (.ofI (.ivar 0)) (.var 1)) ≠ some 1 := by dec
 example : wt [true, false] (.mul (.lit 2) (.var 0)) = none := by decide
 example : wt [true, true, false] (.round (.div (.var 0) (.var 2))) = none := by decide
 
+/-! ### evaluations at a FIXED ABSOLUTE time (the constructors' probes) -/
+
+/-- Every place where the source evaluates a (user) callable at a time that does not move with
+    the origin (`H(1.0)`, `gamma(1.0)`, `field_eom(1.0, …)` in the input checks) keeps nothing of
+    the returned value but a raise-or-not validation or its shape: no numerical type, no value,
+    no object built from it.  Evaluated by the kernel on the regenerated table. -/
+theorem all_probes_ok : probes.all Probe.ok = true := by decide
+
+/-- Consequence: for callables whose shape and validity do not depend on the time (a
+    Hamiltonian is a d×d matrix at every time), what an object remembers of a probe is the same
+    for the callable `f` and for the callable moved by any τ, `t ↦ f (t − τ)` — although the
+    probe time itself does not move.  (For `dtype`/`value` this is false: see the example.) -/
+theorem probe_shift_invariant : ∀ p ∈ probes, ∀ k ∈ p.kept, ∀ {K α ι δ : Type} [Field K]
+    (f : K → α) (valid : α → Bool) (shp : α → ι) (dty : α → δ) (t0 τ : K),
+    (∀ t t', valid (f t) = valid (f t')) → (∀ t t', shp (f t) = shp (f t')) →
+    retainedInfo valid shp dty (f (t0 - τ)) k = retainedInfo valid shp dty (f t0) k := by
+  intro p hp k hk K α ι δ _ f valid shp dty t0 τ hv hs
+  have hok := List.all_eq_true.mp all_probes_ok p hp
+  have hk' := List.all_eq_true.mp hok k hk
+  cases k with
+  | discard => rfl
+  | validate => simp only [retainedInfo]; rw [hv (t0 - τ) t0]
+  | shape => simp only [retainedInfo]; rw [hs (t0 - τ) t0]
+  | dtype => simp at hk'
+  | value => simp at hk'
+  | unknown => simp at hk'
+
+/-- non-vacuity: there are probes, with retained validations and shapes -/
+example : probes.length ≥ 5 ∧ probes.any (fun p => p.kept.contains .shape) = true
+    ∧ probes.any (fun p => p.kept.contains .validate) = true := by decide
+/-- a retained numerical type is NOT shift invariant: a rate that is the integer 0 after 9/10
+    and a float before, probed at 1, origin moved by 1/2 -/
+example : retainedInfo (α := Bool) (ι := Unit) (δ := Bool) (fun _ => true) (fun _ => ()) id
+      ((fun t : Rat => decide (t > 9/10)) (1 - 1/2)) Kept.dtype
+    ≠ retainedInfo (fun _ => true) (fun _ => ()) id ((fun t : Rat => decide (t > 9/10)) 1) Kept.dtype := by
+  simp only [retainedInfo, ne_eq, Info.dtypeIs.injEq, id]
+  norm_num
+
 /-! ### the generated binary64 readings agree with the C13 / C18 fragments (two translators) -/
 
 theorem tempo_time_agrees (s dt : Rat) (k : Int) :
